@@ -29,7 +29,7 @@ ASSUMPTIONS = [
 ]
 
 ROLESETS = {
-    'AMR': [':instance', ':ARG0', ':ARG0-of', ':ARG0-of-of', ':consist-of', ':foo', ':mod-of'],
+    'AMR': [':instance', ':ARG0', ':ARG0-of', ':ARG0-of-of', ':consist-of', ':foo', ':consist'],
     'MINI': [':instance', ':ARG0', ':ARG0-of', ':consist-of-of', ':op12', ':foo-of', ':ARG2'],
     'DEFAULT': [':instance', ':r', ':TOP', ':TOP-of'],
 }
@@ -64,13 +64,13 @@ def shards(tier, seed):
 GOOD = '(a / alpha :ARG0 (b / beta))'
 BAD1 = '# ::id 7\n(a / alpha :foo b)'
 BAD2 = '(a / alpha\n   :foo b\n   :bar (c / x :ARG0-of-of-of a :ARG1-of a))'
-KINDS = {'G': (GOOD, []), 'B': (BAD1, [('a', ':foo', 'b')]), 'C': (BAD2, [('a', ':foo', 'b'), ('a', ':bar', 'c'), ('a', ':ARG0-of-of', 'c')])}
+KINDS = {'E': ('()', None), 'G': (GOOD, []), 'B': (BAD1, [('a', ':foo', 'b')]), 'C': (BAD2, [('a', ':foo', 'b'), ('a', ':bar', 'c'), ('a', ':ARG0-of-of', 'c')])}
 
 
 def _contents():
     out = ['']
     for n in (1, 2):
-        for ks in itertools.product('GBC', repeat=n):
+        for ks in itertools.product('GBCE' if n == 1 else 'GBC', repeat=n):
             out.append(''.join(ks))
     return out
 
@@ -101,7 +101,7 @@ def cases(shard):
             for quiet in (False, True):
                 yield {'files': None, 'stdin': c, 'quiet': quiet}
     elif shard.get('subprocess'):
-        seqs = [['B', 'G'], ['G', 'B'], ['G', 'G'], ['BG', ''], ['', 'GC', 'G'], ['C'], ['G'], ['GB', 'G', 'G'], ['', ''], ['GG', 'CG']]
+        seqs = [['E', 'G'], ['B', 'G'], ['G', 'B'], ['G', 'G'], ['BG', ''], ['', 'GC', 'G'], ['C'], ['G'], ['GB', 'G', 'G'], ['', ''], ['GG', 'CG']]
         for s in seqs:
             for quiet in (False, True):
                 yield {'files': s, 'quiet': quiet, 'subprocess': True}
@@ -223,7 +223,7 @@ def _check_tool(case, ctx):
         if d:
             shutil.rmtree(d, ignore_errors=True)
     kinds = ''.join(contents)
-    any_bad = any(k in 'BC' for k in kinds)
+    any_bad = any(k in 'BCE' for k in kinds)
     if (code != 0) != any_bad:
         ctx.fail('--check exit status: non-zero exactly when some graph in some input has an error', expected='non-zero' if any_bad else 0, observed=code,
                  repro='files: ' + repr(contents))
@@ -246,6 +246,12 @@ def _check_tool(case, ctx):
             return
         for g, k in zip(gs, kinds):
             errs = sorted(v for key, v in g.metadata.items() if key.startswith('error-'))
+            if k == 'E':
+                # the empty node: a graph-level error (no triple to name); some error-N entry must be present
+                if not errs:
+                    ctx.fail('the empty graph () has an error but received no error-N metadata', observed=dict(g.metadata))
+                    return
+                continue
             want = sorted('({}) invalid role'.format(' '.join(map(str, t))) for t in KINDS[k][1])
             if errs != want:
                 ctx.fail('error-N metadata does not list exactly the offending triples of that graph', expected=want, observed=errs)
